@@ -12,7 +12,7 @@ BACKENDS = ['dict', 'file', 'filepack', 'redis']
 
 def setup(run, theorems):
     from jugverif import extract_worker as X
-    paths = X.all_paths(thorough=(run.tier == 'thorough'))
+    paths = X.all_paths(thorough=True)    # the same (full) set in both tiers: no rebuild ping-pong between tiers
     core.write_generated('WorkerPaths', X.emit(paths))
     run.counts['worker_loop_paths_extracted'] = len(paths)
     run.counts['worker_loop_events_extracted'] = sum(len(p[3]) for p in paths)
